@@ -750,7 +750,11 @@ func (p *Parser) parseForEach() ast.Expression {
 	expression := &ast.ForeachStatement{Token: p.curToken}
 
 	// get the id
-	p.nextToken()
+	if !p.expectPeek(token.IDENT) {
+		msg := fmt.Sprintf("foreach must be given an identifier, got %s around %s", p.curToken.Literal, p.curToken.Position())
+		p.errors = append(p.errors, msg)
+		return nil
+	}
 	expression.Ident = p.curToken.Literal
 
 	// If we find a "," we then get a second identifier too.
@@ -817,8 +821,12 @@ func (p *Parser) parseFunctionDefinition() ast.Expression {
 	// We're inside a function
 	p.function = true
 
-	// skip the `function` keyword
-	p.nextToken()
+	// skip the `function` keyword, and expect the name
+	if !p.expectPeek(token.IDENT) {
+		msg := fmt.Sprintf("a function must be given a name, got %s around %s", p.curToken.Literal, p.curToken.Position())
+		p.errors = append(p.errors, msg)
+		return nil
+	}
 
 	// Define a function with the identifier
 	lit := &ast.FunctionDefinition{Token: p.curToken}
@@ -870,6 +878,13 @@ func (p *Parser) parseFunctionParameters() []*ast.Identifier {
 
 		if p.curTokenIs(token.EOF) {
 			p.errors = append(p.errors, "unterminated function parameters found end of file")
+			return nil
+		}
+
+		// Parameters are named by identifiers, nothing else.
+		if !p.curTokenIs(token.IDENT) {
+			msg := fmt.Sprintf("function parameters must be identifiers, got %s around %s", p.curToken.Literal, p.curToken.Position())
+			p.errors = append(p.errors, msg)
 			return nil
 		}
 
